@@ -98,4 +98,41 @@ TEXT = {
         "note": "Instants >= 1970 and whole-second intervals. The grace-period cleanup timer runs on the real clock and does not fire during a history.",
         "technique": "runtime monitoring: period reference model over virtual-clock rotation histories and random pure-function inputs",
     },
+    "C08": {
+        "text": "Exploration of schedules and histories: a receiver device with an activated group context runs on sync-point-instrumented sources (message store, chain-key path of the group context, queues); prepared log entries of 1-3 senders are delivered by plans "
+                "(messages singly / batched, announcement before, between, after them, messages sealed before the announcement, early close); each plan runs un-perturbed, under jitter and under pair plans that suspend one of the store's own tasks at a sync point until another task passed one of its own; "
+                "quiescence is decided from hit counters and goroutine states; the oracle is conservation: delivered == arrived and decryptable, exactly once, right payload and sender, nothing decryptable parked, queue empty.",
+        "note": "Pair forcing at the instrumented points plus jitter, not all interleavings. Per-sender message counts stay below the key window.",
+        "technique": "runtime monitoring: forced interleavings via build-overlay sync points + conservation oracle at counter/goroutine-defined quiescence",
+    },
+    "C12": {
+        "text": "Exploration: every single-bit flip, field removal, group-type substitution and cross-group field swap of random invitations is decoded, classified (protected part changed or not) and handed to the real GroupJoin on an account group; "
+                "the identity used after an honest join is compared with the account identity; replication descriptors of groups of all types are searched for the secret, tried against every metadata envelope, message header and payload of a session of the full group, and compared by access-controller and log address.",
+        "note": "Manipulations of parts the statement does not protect (link key signature, extra fields) are run for no-panic only.",
+        "technique": "runtime monitoring: accept/refuse oracle over an exhaustive single-bit and field manipulation catalogue; descriptor-opens-nothing oracle",
+    },
+    "C15": {
+        "text": "Exploration: random operation sequences against a reference FIFO / counter-ordered multiset (sequential contract); on sync-point-instrumented queue sources, scenarios of 1-2 producers x 1-3 items, a consumer and optional cancellation run un-perturbed, under profile jitter, under EVERY pair plan "
+                "(one role suspended at a sync point until another passed one of its own) and under seeded jitter; oracles: conservation / exactly once / per-producer order, a lost-wake-up detector decided from goroutine and queue state, porcupine on every recorded history; a race-detector stress on the un-instrumented queues.",
+        "note": "Pair forcing + jitter, not all interleavings; a race report in the queue sources counts as a violation.",
+        "technique": "runtime monitoring: forced interleavings via sync points, lost-wake-up detector, porcupine linearizability check, race detector",
+    },
+    "C16": {
+        "text": "Exploration of schedules: the connectedness tracker (updater sequences of <= 3 associate/update operations, 1-2 waiters, cancellation), the Notify primitive, the lifecycle manager and the discovery peer cache run on sync-point-instrumented sources under un-perturbed, jitter and pair plans; "
+                "a deadlock detector (all participants blocked, one in a mutex acquire) and a missed-update detector (updater finished, waiter parked, reference state differs from what the waiter saw) decide at quiescence defined by goroutine states; returned lists are compared with the entries that changed; cancellation must return negative.",
+        "note": "The statement's static lock-order clause is outside this family; its dynamic counterpart is the deadlock detector under forced orderings. Pair forcing + jitter, not all interleavings.",
+        "technique": "runtime monitoring: forced interleavings via sync points with deadlock and missed-update detectors at goroutine-state quiescence",
+    },
+    "C19": {
+        "text": "Exploration: every method of the protocol service (by reflection over the server interface; streaming ones through an in-memory stream) is called in-process under recover with requests generated field by field from pools of edge values, values harvested from the live service and their corrupted variants, "
+                "in seeded sequences interleaved with activation/deactivation of the account group and other groups; the exported decode/decrypt helpers get random and malformed inputs. Only a panic (or a dead process) counts.",
+        "note": "In-process calls: a recovered panic is the observation. Calls blocked on external services are cancelled after 3 s.",
+        "technique": "runtime monitoring: reflection-driven request fuzzing of all RPC handlers in every activation state with panic capture",
+    },
+    "C20": {
+        "text": "Exploration: seeded account histories on a real service are exported; the archive is parsed independently (key files, entries re-hashed against their file names, heads); it is restored into a fresh node and every log is compared (entry CIDs, heads, derived state) before anything is written there, "
+                "then a service is started on the restored node and the messages are listed; mutated archives (byte flips in entries/heads/keys, dropped/duplicated key files, duplicated/renamed entries, reordering, truncation, used store) must be rejected where the statement says so and never panic.",
+        "note": "A restore waiting for entries that cannot come (mutations outside the rejection list) is released by cancelling the node and recorded, not judged.",
+        "technique": "runtime monitoring: export/restore round trip with independent archive parsing, log/state equality oracle and archive mutation catalogue",
+    },
 }
